@@ -213,15 +213,19 @@ def correspondence(ctx):
                      "Eval vm_compute in failing (fun c => match c with (r, t, fr, tg, b, a) => step_ok r t fr tg b a end) cases.\n"
                      "Eval vm_compute in failing (fun c => match c with (r, t, fr, tg, b, a) => match r with\n"
                      "  | RSimplify => simplify_g_cert t fr tg b a | RMerge => merge_cert fr tg b a\n"
-                     "  | RHoist => hoist_cert fr tg b a | RElide => elide_g_cert tg b a | RPull => true end end) cases.\n"
-                     "Eval vm_compute in failing (fun c => match c with (r, t, fr, tg, b, a) => match r with RPull => full_field_form b | _ => true end end) cases.\n")
+                     "  | RHoist => hoist_cert fr tg b a | RElide => elide_g_cert tg b a | RPull => pull_cert fr tg b a end end) cases.\n"
+                     "Eval vm_compute in failing (fun c => match c with (r, t, fr, tg, b, a) => match r with RPull => pull_covered fr tg b | _ => true end end) cases.\n")
     res = vlib.coq_eval_many("c01l1_", texts, timeout=900)
     for sh, (ok, out) in zip(shards, res):
         lists = vlib.parse_all_eval_lists(out)
         if not ok or len(lists) != 3:
             dis.append({"name": "L1:cases-file", "detail": out[-1500:]})
             continue
-        ctx.extra["pull_rewrites_on_non_full_field_programs"] = ctx.extra.get("pull_rewrites_on_non_full_field_programs", 0) + len(lists[2])
+        # pull rewrites applied mid-pipeline to a program that is no longer in full-field form are outside
+        # C01_pull_rule (L1 model correspondence + L2 only); those applied to a full-field program are covered
+        ctx.extra["pull_rewrites_outside_C01_pull_rule(not full-field at that point)"] = \
+            ctx.extra.get("pull_rewrites_outside_C01_pull_rule(not full-field at that point)", 0) + len(lists[2])
+        ctx.extra["pull_rewrites_total"] = ctx.extra.get("pull_rewrites_total", 0) + sum(1 for s_, _ in sh if s_[0] == "PullSetupOpsOutOfLoops")
         for idx in lists[0]:
             s, text = sh[idx]
             dis.append({"name": f"L1:{s[0]}", "target": s[1], "text": text, "coq_case": AC.step_case(s)[:1500]})
